@@ -13,6 +13,8 @@ pub fn size_for(seed: u64, tag: &str, doc: &str, vi: u64, tier: Tier) -> usize {
         0 => 0,
         1 => 1,
         2 => 2 + r.below(6) as usize,
+        // one payload above 8 KiB per document in every tier (exceeds BufWriter / BufReader defaults)
+        5 => 1100,
         _ => {
             let big = match tier {
                 Tier::Quick => false,
